@@ -110,8 +110,8 @@ def binary_layout(ctx, r, F, envs):
         CK = ("cparam", "SIZE_CKSUM")
         want = {
             "checksum": ("call", "hash::checksum::FuzzyHashChecksumData::<SIZE_CKSUM, SIZE_BUCKETS>::from_raw", (V("ck"),)),
-            "lvalue": ("call", "length::FuzzyHashLengthEncoding::from_raw", (("load", ("index", ("deref", P(1)), V("li"))),)),
-            "qratios": ("call", "hash::qratios::FuzzyHashQRatios::from_raw", (("load", ("index", ("deref", P(1)), V("qi"))),)),
+            "lvalue": ("call", "length::FuzzyHashLengthEncoding::from_raw", (("load", ("index", ("deref", V("lview")), V("li"))),)),
+            "qratios": ("call", "hash::qratios::FuzzyHashQRatios::from_raw", (("load", ("index", ("deref", V("qview")), V("qi"))),)),
             "body": ("call", "hash::body::FuzzyHashBodyData::<SIZE_BODY>::from_raw", (V("bd"),)),
         }
         if okv[0] != "agg" or len(okv[2]) != 4:
@@ -123,9 +123,22 @@ def binary_layout(ctx, r, F, envs):
                     bad.append("field %s built from %s" % (fld, sym.fmt(okv[2][fi])[:100]))
             if not bad:
                 def arr_window(e):
-                    xs = find_all(e, lambda x: x[0] == "call" and x[1].endswith("::index"))
-                    return layout.window(xs[0], P(1)) if xs else None
+                    # the sub-slice of the input an array is converted from: x[a..b], x.split_at(k).0 / .1, ...
+                    xs = find_all(e, lambda x: (x[0] == "call" and x[1].endswith("::index")) or
+                                  (x[0] == "field" and x[1][0] == "call" and x[1][1].endswith(("::split_at", "::split_at_mut"))))
+                    ws = [layout.window(x, P(1)) for x in xs]
+                    ws = [w for w in ws if w is not None]
+                    # the innermost (most specific) view is the one actually converted
+                    return ws[0] if ws else None
                 wck, wbd = arr_window(b["ck"]), arr_window(b["bd"])
+                # element reads through a view of the input: absolute offset = view start + index
+                for key_, vk in (("li", "lview"), ("qi", "qview")):
+                    if b[vk] != P(1):
+                        wv = layout.window(b[vk], P(1))
+                        if wv is None:
+                            bad.append("byte read through %s" % sym.fmt(b[vk])[:60])
+                        else:
+                            b[key_] = layout.add(wv[0], b[key_])
                 for name, env in envs:
                     ref = ref_bin_layout(env)
                     got = {
@@ -147,7 +160,26 @@ def binary_layout(ctx, r, F, envs):
         ([(gate, True)], ("agg", "adt:core::result::Result::Err", (("agg", "adt:errors::ParseError::InvalidStringLength", ()),))),
         ([(gate, False)], ("call", arr.path, (("call", "core::result::Result::<T, E>::unwrap", (("call", "<T as core::convert::TryInto<U>>::try_into", (P(1),)),)),))),
     ]))
-    ctx.ob(r, ("TryFrom<&[u8]>", "length-gate"), sorted(map(repr, dec)) == want,
+    okslice = sorted(map(repr, dec)) == want
+    if not okslice:
+        # the same gate spelled through the fallible conversion to &[u8; N] (Ok exactly when len == N)
+        TF = ("call", V("tf"), (P(1),))
+        alt_ok = alt_err = False
+        for cs, ret in dec:
+            if len(cs) != 1:
+                continue
+            m_ = match(("discr", TF), cs[0][0])
+            if m_ is None or not m_["tf"].endswith(("::try_from", "::try_into")):
+                continue
+            tfc = ("call", m_["tf"], (P(1),))
+            if cs[0][1] == 0 and ret == ("call", arr.path, (("field", ("variant", tfc, "Ok"), 0),)):
+                alt_ok = True
+            if cs[0][1] == 1 and ret == ("agg", "adt:core::result::Result::Err", (("agg", "adt:errors::ParseError::InvalidStringLength", ()),)):
+                alt_err = True
+        # the conversion target must be the array type of the array impl
+        tgt_ok = any(F.tys(i).startswith("&[u8; ") for i in arr.d.get("inputs", []))
+        okslice = alt_ok and alt_err and tgt_ok and len(dec) == 2
+    ctx.ob(r, ("TryFrom<&[u8]>", "length-gate"), okslice,
            "slice conversion is %s; reference len != SIZE_IN_BYTES -> InvalidStringLength else try_from(array)" % [([(sym.fmt(c), t) for c, t in cs], sym.fmt(ret)) for cs, ret in dec],
            cfg=F.key, where=slc.where())
     # forwards to the array impl of the same type
